@@ -26,7 +26,8 @@ Qed.
 
 Lemma item_spec r i : reader_inv r -> 0 <= i < h_num_items (r_hdr r) ->
   exists v a b, item r i = Ok v /\ view_inside r v /\ item_header r i = Ok (a, b)
-    /\ iv_type v = ih_type_id a /\ iv_id v = ih_id a /\ iv_len v = b / 4.
+    /\ iv_type v = ih_type_id a /\ iv_id v = ih_id a /\ iv_len v = b / 4
+    /\ exists off, znth (r_item_offsets r) i = Some off /\ iv_off v = off / 4 + 2.
 Proof.
   intros Hinv Hi. pose proof (ri_pre r Hinv) as Hp.
   destruct (ri_items r Hinv i Hi) as (off & a & b & Hz & Ho & H4 & Hf & Hb & Hb4 & Hs).
@@ -54,7 +55,7 @@ Proof.
   { rewrite zlen_skipn by (unfold zlen in *; lia). lia. }
   rewrite slice_to_ok by lia. cbn [bind].
   eexists. exists a, b. split; [reflexivity|]. cbn [iv_type iv_id iv_off iv_len iv_data].
-  split; [|auto].
+  split; [|repeat split; auto; exists off; auto].
   unfold view_inside. cbn [iv_type iv_id iv_off iv_len iv_data].
   repeat split; try lia; try apply ih_type_id_range; try apply ih_id_range.
   f_equal. f_equal. lia.
@@ -118,6 +119,9 @@ Lemma read_data_spec unc r i : reader_inv r -> 0 <= i < h_num_data (r_hdr r) ->
   exists off len,
     read_data_src r i = Ok (off, len) /\ 0 <= off /\ 0 <= len /\ off + len <= h_size_data (r_hdr r)
     /\ h_size_data (r_hdr r) <= zlen (r_data r)
+    /\ znth (r_data_offsets r) i = Some off
+    /\ (if i <? h_num_data (r_hdr r) - 1 then znth (r_data_offsets r) (i + 1) = Some (off + len)
+        else off + len = h_size_data (r_hdr r))
     /\ let raw := firstn (Z.to_nat len) (skipn (Z.to_nat off) (r_data r)) in
        match r_uds r with
        | None => read_data unc r i = Ok raw
@@ -131,21 +135,23 @@ Proof.
   assert (Hi0 : 0 <= i) by lia. assert (Hi1 : 0 <= i + 1) by lia.
   assert (He : exists e, (if i <? zlen (r_data_offsets r) - 1
                 then let* x := index (r_data_offsets r) (i + 1) site_index_data_offsets in Ok (as_usize x)
-                else Ok (as_usize (h_size_data (r_hdr r)))) = (Ok e : res err Z) /\ o <= e <= h_size_data (r_hdr r)).
-  { destruct (i <? zlen (r_data_offsets r) - 1) eqn:E; [apply Z.ltb_lt in E|apply Z.ltb_ge in E].
+                else Ok (as_usize (h_size_data (r_hdr r)))) = (Ok e : res err Z) /\ o <= e <= h_size_data (r_hdr r)
+                /\ (if i <? h_num_data (r_hdr r) - 1 then znth (r_data_offsets r) (i + 1) = Some e else e = h_size_data (r_hdr r))).
+  { rewrite <- Hdl. destruct (i <? zlen (r_data_offsets r) - 1) eqn:E; [apply Z.ltb_lt in E|apply Z.ltb_ge in E].
     - destruct (ri_data r Hinv (i + 1) ltac:(lia)) as (o' & Hz' & Ho' & _).
       rewrite (index_of_znth _ _ _ _ Hi1 Hz'). cbn [bind]. exists o'.
-      rewrite as_usize_small by lia. split; [reflexivity|]. split; [|lia].
+      rewrite as_usize_small by lia. split; [reflexivity|]. split; [|exact Hz']. split; [|lia].
       apply (ri_sorted r Hinv i (i + 1) o o'); auto; lia.
-    - exists (h_size_data (r_hdr r)). rewrite as_usize_small by lia. split; [reflexivity|lia]. }
-  destruct He as (e & He & Hoe).
+    - exists (h_size_data (r_hdr r)). rewrite as_usize_small by lia. split; [reflexivity|]. split; [lia|reflexivity]. }
+  destruct He as (e & He & Hoe & Hnext).
   assert (Hsrc : read_data_src r i = Ok (o, e - o)).
   { unfold read_data_src, data_size_file. rewrite (index_of_znth _ _ _ _ Hi0 Hz). cbn [bind].
     rewrite usize_sub_ok by lia. cbn [bind]. rewrite He. cbn [bind].
     rewrite (as_usize_small o) by lia.
     destruct (o <=? e) eqn:E; [|apply Z.leb_gt in E; lia]. cbn [negb].
     rewrite usize_sub_ok by lia. cbn [bind]. unfold u32_of, two32. rewrite Z.mod_small by lia. reflexivity. }
-  exists o, (e - o). split; [exact Hsrc|]. repeat split; try lia.
+  exists o, (e - o). split; [exact Hsrc|]. split; [lia|]. split; [lia|]. split; [lia|]. split; [lia|].
+  split; [exact Hz|]. split; [replace (o + (e - o)) with e by lia; exact Hnext|].
   cbv zeta. unfold read_data. rewrite Hsrc. cbn [bind fst snd].
   assert (Hseek : seek_read_exact (r_data r) o (e - o) = Ok (firstn (Z.to_nat (e - o)) (skipn (Z.to_nat o) (r_data r)))).
   { unfold seek_read_exact. cbv zeta.
@@ -163,7 +169,7 @@ Proof. destruct z; cbn; [destruct (_ =? _)|]; exact I. Qed.
 
 Lemma read_data_no_panic unc r i : reader_inv r -> 0 <= i < h_num_data (r_hdr r) -> no_panic (read_data unc r i).
 Proof.
-  intros Hinv Hi. destruct (read_data_spec unc r i Hinv Hi) as (off & len & _ & _ & _ & _ & _ & H).
+  intros Hinv Hi. destruct (read_data_spec unc r i Hinv Hi) as (off & len & _ & _ & _ & _ & _ & _ & _ & H).
   cbv zeta in H. destruct (r_uds r).
   - destruct H as (u & _ & _ & ->). apply zcase_no_panic.
   - rewrite H. exact I.
